@@ -232,7 +232,7 @@ static void free_refs(Array<Reference*>& a) {
 static void run_case(const CaseId& c) {
     bool ok = true;
     // arcs are sampled to the path tolerance 1e-2 before or after the magnification: allow 2.5 tolerances times the total magnification
-    g_curved_tol = c.leaf == L_FLEX_BEND ? 2.5e-2 * std::max(1.0, MAGS[c.s1.mag] * MAGS[c.s2.mag]) : 0;
+    g_curved_tol = c.leaf == L_FLEX_BEND ? 2.5e-2 * std::max(1.0, std::max(MAGS[c.s1.mag], 2.0) * MAGS[c.s2.mag]) : 0;  // MID's second reference to LEAF magnifies by 2: the largest composite magnification sets the arc re-sampling error
     {   // A. queries on the intact hierarchy
         World w = build(c.leaf, c.s1, c.s2, true, true);
         QCtx xt{&c, "TOP", "intact"}, xm{&c, "MID", "intact"};
@@ -356,6 +356,17 @@ int main(int argc, char** argv) {
     bool ok = parallel_for(run, (int64_t)cases.size(), body, [&](int64_t i) { return case_json(cases[i]); }, [&](int64_t i) { return case_replay(cases[i]); }, PFOptions{60, "hier.crash", true});
     run.sample("hier", jobj({{"hierarchy", case_json(cases[cases.size() / 3])}, {"queries", jstr("get_polygons/get_flexpaths/get_robustpaths/get_labels x apply_repetitions x include_paths x depth {0,1,2,-1 (and -3 unfiltered)} x filter {none,present,absent,label tag} on TOP and MID; flatten(F/T) of TOP or MID; deep copy + mutate")}}));
     run.bound("hier", fmt("%zu leaf contents x %zu reference placements per level (%zu hierarchies)", sizeof(leaves) / sizeof(int), specs.size(), cases.size()), ok, (int64_t)cases.size());
+
+    // reductions: magnification 0.5 on the inner level, 0.5 or 2 on the outer one (the main space only magnifies by 1 and 2)
+    std::vector<CaseId> rc;
+    for (int leaf : leaves)
+        for (int r1 : {0, 4}) for (int f1 = 0; f1 < 2; f1++) for (int rep1 : {REP_NONE, REP_RECT, REP_EXPLICIT})
+            for (int r2 : {1, 4}) for (int f2 = 0; f2 < 2; f2++) for (int m2 : {2, 1}) for (int rep2 : {REP_NONE, REP_EXPLICIT})
+                rc.push_back({leaf, {r1, f1, 2, 1, rep1}, {r2, f2, m2, 1, rep2}});
+    auto rbody = [&](int64_t i) { run_case(rc[i]); };
+    bool ok3 = parallel_for(run, (int64_t)rc.size(), rbody, [&](int64_t i) { return case_json(rc[i]); }, [&](int64_t i) { return case_replay(rc[i]); }, PFOptions{60, "hier.reduce.crash", true});
+    run.sample("hier.reduce", jobj({{"hierarchy", case_json(rc[rc.size() / 2 + 3])}}));
+    run.bound("hier.reduce", fmt("%zu leaf contents x 12 inner placements at magnification 0.5 x 16 outer placements at magnification 0.5 or 2 (%zu hierarchies): same queries and oracles as hier", sizeof(leaves) / sizeof(int), rc.size()), ok3, (int64_t)rc.size());
 
     // histories on a reduced set
     std::vector<std::pair<CaseId, std::vector<int>>> hs;
